@@ -383,9 +383,10 @@ def gen_luflat(r, Ls, n):
     for _ in range(n):
         L = r.pick(Ls); csc = r.below(2); nn = r.rng(1, 7); blocks = r.rng(1, 2 * max(L, 1) + 1)
         es = G.gen_pattern(r, nn, density=r.unit() * 0.5)
-        c = lu_case(r, 0, L, csc, nn, blocks, es)
+        kind = r.below(4)
+        c = lu_case(r, kind, L, csc, nn, blocks, es)
         toks = c.line.split()
-        c.line = " ".join(["luflat"] + toks[2:])
+        c.line = " ".join(["luflat"] + toks[1:])
         c.kind = "luflat"; c.oracle = None; c.tags.append("flat")
         cs.append(c)
     return cs
@@ -453,6 +454,12 @@ def g_c05(r, tier, env, Ls):
             c.oracle = oracle_trace_pair_marker
             cs.append(c)
         gid += 1
+    # AlphaMinusJacobian on index-coded flat storage, every ordering policy
+    for _ in range(80 if tier == "quick" else 1500):
+        L = r.pick(Ls); csc = r.below(2); nn = r.rng(1, 6); blocks = r.rng(1, 2 * max(L, 1) + 1)
+        es = G.gen_pattern(r, nn, density=r.unit() * 0.5)
+        cs.append(Case(" ".join(["alphaflat", str(nn), str(csc), str(L), str(blocks)] + G.pairs_tokens(es) + [hexd(r.pick([0.5, 1234.5, 1e-3]))]),
+                       dict(L=L), "alphaflat", tags=["alphaflat", "L=%d" % L]))
     # backward Euler on linear mechanisms with arbitrary (non-dyadic) h_start: independent Newton-iteration oracle
     for _ in range(60 if tier == "quick" else 1500):
         L = r.pick(Ls); ns = r.rng(1, 4)
